@@ -132,6 +132,12 @@ pub use wordpress_dotcom::WordPressDotcom;
 
 use crate::{Document, LSend};
 
+/// Verification hooks (see `crate::verif_hooks`).
+#[cfg(kani)]
+pub mod verif {
+    pub use super::pattern_linter::run_on_chunk;
+}
+
 /// A __stateless__ rule that searches documents for grammatical errors.
 ///
 /// Commonly implemented via [`PatternLinter`].
